@@ -211,8 +211,8 @@ def check(ctx):
         p = subprocess.run(["timeout", "300", "coqc"] + flags + [os.path.join(gen_dir, f)], cwd=core.COQ, stdout=subprocess.PIPE, stderr=subprocess.STDOUT, text=True)
         if p.returncode != 0:
             break
-    ok = p.returncode == 0 and (p.stdout or "").count("Closed under the global context") == len(THEOREMS)
-    ctx.notes["translator_nxutil_link_theorems"] = "UJGen.TopoLink.{%s}: %s" % (", ".join(THEOREMS), "proved, closed" if ok else "NOT proved")
+    ok = p.returncode == 0 and (p.stdout or "").count("Closed under the global context") == len(THEOREMS) + 2
+    ctx.notes["translator_nxutil_link_theorems"] = "UJGen.TopoLink.{%s}: %s" % (", ".join(THEOREMS), "proved, closed (and C07_cycle_rejected_on_source, C07_kahn_order_on_source: the C07 theorems stated of the generated function)" if ok else "NOT proved")
     if not ok:
         # topo_corr.py (random graphs incl. parallel edges and cycles against Exec_Topo) exhibits the concrete graph
         ctx.broke("translator link theorems UJGen.TopoLink no longer check: networkx_util.py differs from Base/Topo.v", (p.stdout or "")[-1500:])
